@@ -40,9 +40,9 @@ PLANS = {
                                                   dict(maxlog=2, num=300, depth=30, lean=False, focus="overlay")],
                       per_beh=5, fs=[1, 3, 25, 400], vts=["tiny", "edge", "ovf"], embs=api.EMBEDDINGS_ALL)),
     "C13": dict(
-        quick=dict(mc=["core2"], gens=[dict(maxlog=2, num=24, depth=22, lean=True, focus="commit")],
+        quick=dict(mc=["core2"], gens=[dict(maxlog=2, num=24, depth=22, lean=True, focus="commit", templates="cold")],
                    per_beh=1, fs=[25, 60], vts=["tiny", "mixed"], embs=["top", "scatter", "deep(6):z", "spread(6)"], matrix=True),
-        thorough=dict(mc=["core", "core2"], gens=[dict(maxlog=2, num=200, depth=28, lean=True, focus="commit")],
+        thorough=dict(mc=["core", "core2"], gens=[dict(maxlog=2, num=200, depth=28, lean=True, focus="commit", templates="cold")],
                       per_beh=2, fs=[3, 25, 60, 400], vts=["tiny", "mixed", "edge"], embs=api.EMBEDDINGS_ALL, matrix=True)),
     "C16": dict(
         quick=dict(mc=["core2"], gens=[dict(maxlog=2, num=60, depth=24, lean=True, focus="commit")],
@@ -137,7 +137,11 @@ def run_plan(pid, tier, seed, extra_cov=None, t0=None):
         if g.get("top"):
             # generate many, keep the behaviours richest in the features of the focus
             kept = sorted(kept, key=lambda b: -api.score(b, g["focus"]))[: g["top"]]
-        if g.get("templates") == "rejected":
+        if g.get("templates") == "cold":
+            ct = api.cold_templates(sorted(consts["Keys"]))
+            kept = kept + (ct if tier == "thorough" else ct[:2])
+            tpl = []
+        elif g.get("templates") == "rejected":
             kept = kept + api.rejected_templates(sorted(consts["Keys"]))
             tpl = []
         elif g.get("templates") == "rollback":
@@ -176,6 +180,8 @@ def run_plan(pid, tier, seed, extra_cov=None, t0=None):
                         st2 = dict(mc)
                         st2.update(rollback=store["rollback"], max_rollback_log_len=store["max_rollback_log_len"],
                                    seed=rng.randrange(1 << 30))
+                        if st2.get("hashtable_buckets") == "tiny":
+                            st2["hashtable_buckets"] = max(64, int(rng.choice([1.5, 2, 3]) * (8 + conc["f"] * 3)))
                         reps.append((st2, conc))
                 else:
                     reps.append((store, conc))
